@@ -18,6 +18,7 @@
   arbitrary token lists of any length.
 -/
 import MdProofs.Lemmas.Cfi
+import MdProofs.Lemmas.CfiWalk
 namespace MdModel.Cfi
 open MdModel
 
@@ -218,5 +219,120 @@ theorem align_spec (l r : UInt64) (h : ∃ k, k < 64 ∧ r.toNat = 2 ^ k) :
 
 example : applyBin .align 0x1237 16 = some 0x1230 := by decide
 example : applyBin .align 0x1237 24 = none := by decide
+
+
+/-! ## 5. `walk_with_stack_cfi`: CFA first and not from itself, return address mandatory -/
+
+/-- What a successful walk consists of: the lines parse into a rule map that has a `.cfa` and a
+    `.ra` rule; the CFA rule evaluates **without** a CFA; the return-address rule evaluates
+    **with** that CFA; both fit the register width; and the caller is the forwarded registers
+    updated by the remaining rules (in the order of their names), all evaluated with that CFA. -/
+theorem walkCfi_some_iff (w : Walker) (lines : List Bytes) (c : Caller) :
+    walkCfi w lines = some c ↔
+      ∃ m cfaE raE cfa ra, parseAll lines [] = some m ∧ m.get .cfa = some cfaE ∧ m.get .ra = some raE ∧
+        evalCfi w.env none cfaE = some cfa ∧ evalCfi w.env (some cfa) raE = some ra ∧
+        w.fits cfa = true ∧ w.fits ra = true ∧
+        c = (sortOthers (others m)).foldl (applyOther w cfa) ⟨some cfa, some ra, w.fwd⟩ := by
+  unfold walkCfi
+  cases hp : parseAll lines [] with
+  | none => simp
+  | some m =>
+    cases hc : m.get .cfa with
+    | none => simp [hc]
+    | some cfaE =>
+      cases hr : m.get .ra with
+      | none => simp [hc, hr]
+      | some raE =>
+        cases he1 : evalCfi w.env none cfaE with
+        | none => simp [hc, hr, he1]
+        | some cfa =>
+          cases he2 : evalCfi w.env (some cfa) raE with
+          | none => simp [hc, hr, he1, he2]
+          | some ra =>
+            by_cases hf1 : w.fits cfa = true
+            · by_cases hf2 : w.fits ra = true
+              · simp only [hc, hr, he1, he2, Walker.setCfa, Walker.setRa, Walker.caller0, hf1, hf2, if_true,
+                  Option.some.injEq]
+                constructor
+                · intro h; exact ⟨m, cfaE, raE, cfa, ra, rfl, hc, hr, he1, he2, hf1, hf2, h.symm⟩
+                · rintro ⟨m', cfaE', raE', cfa', ra', hm, hc', hr', h1, h2, _, _, hcc⟩
+                  cases hm; rw [hc] at hc'; cases hc'; rw [hr] at hr'; cases hr'
+                  rw [he1] at h1; cases h1; rw [he2] at h2; cases h2; exact hcc.symm
+              · simp [hc, hr, he1, he2, Walker.setCfa, Walker.setRa, Walker.caller0, hf1, hf2]
+            · simp [hc, hr, he1, he2, Walker.setCfa, hf1]
+
+/-- **C06.5a (`cfa_first`)** "the CFA is computed first": the caller's CFA is the value of the
+    `.cfa` rule evaluated with no CFA available, the caller's return address is the value of the
+    `.ra` rule evaluated with that CFA. -/
+theorem cfa_first (w : Walker) (lines : List Bytes) (c : Caller) (h : walkCfi w lines = some c) :
+    ∃ m cfaE raE cfa ra, parseAll lines [] = some m ∧ m.get .cfa = some cfaE ∧ m.get .ra = some raE ∧
+      evalCfi w.env none cfaE = some cfa ∧ evalCfi w.env (some cfa) raE = some ra ∧
+      c.cfa = some cfa ∧ c.ra = some ra := by
+  obtain ⟨m, cfaE, raE, cfa, ra, hm, hc, hr, h1, h2, _, _, rfl⟩ := (walkCfi_some_iff w lines c).mp h
+  refine ⟨m, cfaE, raE, cfa, ra, hm, hc, hr, h1, h2, ?_, ?_⟩
+  · exact (foldl_applyOther_cfa_ra w cfa _ _).1
+  · exact (foldl_applyOther_cfa_ra w cfa _ _).2
+
+theorem classify_cfa : classify tCfa = .cfa := by decide
+
+/-- **C06.5b (`cfa_no_self`)** "may not refer to itself": if the `.cfa` rule mentions `.cfa`
+    anywhere, the walk fails. -/
+theorem cfa_no_self (w : Walker) (lines : List Bytes) (m : RuleMap) (cfaE : Expr)
+    (hm : parseAll lines [] = some m) (hc : m.get .cfa = some cfaE) (hself : tCfa ∈ cfaE) :
+    walkCfi w lines = none := by
+  have hfail : evalCfi w.env none cfaE = none := by
+    obtain ⟨pre, post, rfl⟩ := List.append_of_mem hself
+    unfold evalCfi
+    simp only [List.map_append, List.map_cons, classify_cfa]
+    exact cfa_unavailable_fails _ _ _
+  cases hw : walkCfi w lines with
+  | none => rfl
+  | some c =>
+    obtain ⟨m', cfaE', _, cfa, _, hm', hc', _, h1, _⟩ := (walkCfi_some_iff w lines c).mp hw
+    rw [hm] at hm'; cases hm'
+    rw [hc] at hc'; cases hc'
+    rw [hfail] at h1; cases h1
+
+/-- **C06.5c (`ra_mandatory`)** "a return-address rule is mandatory" (and so is the CFA rule):
+    without a `.ra` rule, or a `.cfa` rule, or when either fails to evaluate, the walk fails —
+    whatever the other rules are. -/
+theorem ra_mandatory (w : Walker) (lines : List Bytes) (m : RuleMap) (hm : parseAll lines [] = some m) :
+    (m.get .ra = none → walkCfi w lines = none) ∧
+    (m.get .cfa = none → walkCfi w lines = none) ∧
+    (∀ cfaE, m.get .cfa = some cfaE → evalCfi w.env none cfaE = none → walkCfi w lines = none) ∧
+    (∀ cfaE raE cfa, m.get .cfa = some cfaE → m.get .ra = some raE →
+        evalCfi w.env none cfaE = some cfa → evalCfi w.env (some cfa) raE = none →
+        walkCfi w lines = none) := by
+  refine ⟨?_, ?_, ?_, ?_⟩
+  · intro h
+    cases hw : walkCfi w lines with
+    | none => rfl
+    | some c =>
+      obtain ⟨m', _, _, _, _, hm', _, hr, _⟩ := (walkCfi_some_iff w lines c).mp hw
+      rw [hm] at hm'; cases hm'; rw [h] at hr; cases hr
+  · intro h
+    cases hw : walkCfi w lines with
+    | none => rfl
+    | some c =>
+      obtain ⟨m', _, _, _, _, hm', hc, _⟩ := (walkCfi_some_iff w lines c).mp hw
+      rw [hm] at hm'; cases hm'; rw [h] at hc; cases hc
+  · intro cfaE hc he
+    cases hw : walkCfi w lines with
+    | none => rfl
+    | some c =>
+      obtain ⟨m', _, _, _, _, hm', hc', _, h1, _⟩ := (walkCfi_some_iff w lines c).mp hw
+      rw [hm] at hm'; cases hm'; rw [hc] at hc'; cases hc'; rw [he] at h1; cases h1
+  · intro cfaE raE cfa hc hr h1 h2
+    cases hw : walkCfi w lines with
+    | none => rfl
+    | some c =>
+      obtain ⟨m', _, _, _, _, hm', hc', hr', h1', h2', _⟩ := (walkCfi_some_iff w lines c).mp hw
+      rw [hm] at hm'; cases hm'; rw [hc] at hc'; cases hc'; rw [hr] at hr'; cases hr'
+      rw [h1] at h1'; cases h1'; rw [h2] at h2'; cases h2'
+
+/-- a parse failure of any line (INIT or an applicable delta) fails the walk -/
+theorem parse_failure_fails (w : Walker) (lines : List Bytes) (h : parseAll lines [] = none) :
+    walkCfi w lines = none := by
+  unfold walkCfi; rw [h]
 
 end MdModel.Cfi
